@@ -34,7 +34,7 @@ ASSUMPTIONS = [
     "blocking pools: the generator never issues a request while maxsize leases are outstanding unless pool_timeout is set",
 ]
 REQUIRED_PROBES = {
-    "quick": ["connect:refused", "send:epipe", "recv:reset", "recv:intr", "retry_happened", "redirect_followed", "probe_block", "probe_nonblock"],
+    "quick": ["connect:refused", "send:epipe", "recv:reset", "recv:intr", "poll:intr", "retry_happened", "redirect_followed", "probe_block", "probe_nonblock", "tunnel_used"],
     "thorough": ["connect:refused", "send:epipe", "recv:reset", "recv:intr", "retry_happened", "redirect_followed", "probe_block", "probe_nonblock", "tunnel_used"],
 }
 
@@ -104,7 +104,7 @@ def _gen_exchange(rng, faulty: bool):
 
 
 def gen_base(rng, tier: str, faulty: bool) -> dict:
-    paths = ["direct"] * 6 + ["fwd"] * 3 + (["tunnel"] * 2 if tier == "thorough" else ["tunnel"])
+    paths = ["direct"] * 6 + ["fwd"] * 3 + (["tunnel", "tunnel", "direct_tls", "tunnel_tlsproxy"] if tier == "thorough" else ["tunnel", "direct_tls"])
     path = rng.choice(paths)
     maxsize = rng.choice([1, 1, 2, 3])
     block = rng.random() < 0.55
@@ -142,7 +142,7 @@ def gen_base(rng, tier: str, faulty: bool) -> dict:
     nx = rng.choice([0, nreq, nreq + 2])
     exchanges = [_gen_exchange(rng, faulty) for _ in range(nx)]
     sc = {"property": ID, "config": cfg, "ops": ops, "dials": [], "exchanges": exchanges, "step_faults": [], "seg": rng.choice([{"mode": "whole"}, {"mode": "whole"}, {"mode": "fixed", "n": rng.choice([1, 7, 100])}])}
-    if path.startswith("tunnel"):
+    if path.startswith("tunnel") or path == "direct_tls":
         sc["seg"] = {"mode": "whole"}
         sc["connects"] = []
     return sc
@@ -171,7 +171,7 @@ def cases(seed: int, k: int, tier: str):
         if len(steps) > cap:
             steps = sorted(rng.sample(steps, cap))
         for s in steps:
-            kinds = {"connect": CONN_FAULTS, "send": SEND_FAULTS, "recv": RECV_FAULTS}[ops[s]]
+            kinds = {"connect": CONN_FAULTS, "send": SEND_FAULTS, "recv": RECV_FAULTS, "poll": ["intr"]}[ops[s]]
             for kind in kinds:
                 sc = copy.deepcopy(base)
                 f = {"at": s, "kind": kind}
